@@ -347,7 +347,7 @@ def _proxy_setup_failure(fail_at, use_ssl, nclients):
 
     class _S(BaseSession):
         pass
-    fail_at = pick([0, 1, 2, 3], fail_at)              # 3: no failure
+    fail_at = pick([0, 1, 2, 3, 4], fail_at)           # 3: no failure; 4: set-up stalls and the client is cancelled meanwhile
     use_ssl = True if use_ssl else False               # decided while tracing: concrete from here on
     st = {'bad': None, 'ok': 0, 'failed': 0}
     real = P.HappyEyeballsConnection
@@ -365,6 +365,9 @@ def _proxy_setup_failure(fail_at, use_ssl, nclients):
         def connect(self):
             if fail_at == 0:
                 raise NetworkError('proxy refused the connection')
+            if fail_at == 4:
+                for _ in range(5):
+                    yield from asyncio.sleep(0)      # the proxy does not answer; the client gets cancelled while waiting
             self._closed = False
 
         @asyncio.coroutine
@@ -379,11 +382,21 @@ def _proxy_setup_failure(fail_at, use_ssl, nclients):
         cp = HTTPProxyConnectionPool(('proxy.example', 8080), max_host_count=1, resolver=_Resolver(), connection_factory=Conn, ssl_connection_factory=Conn)
         for i in range(nclients):
             sess = _S(connection_pool=cp)
-            try:
+
+            async def one(sess=sess):
                 with sess:
                     await sess._acquire_connection('h.example', 443 if use_ssl else 80, use_ssl, tunnel=use_ssl)
                     st['ok'] += 1
+            task = asyncio.ensure_future(one())
+            if fail_at == 4 and i == 0:
+                await asyncio.sleep(0)
+                await asyncio.sleep(0)
+                task.cancel()
+            try:
+                await task
             except NetworkError:
+                st['failed'] += 1
+            except asyncio.CancelledError:
                 st['failed'] += 1
             me = asyncio.current_task()
             others = [t for t in asyncio.all_tasks() if t is not me]
@@ -644,16 +657,16 @@ HARNESSES = [
       doc='ALL schedules (symbolic scheduler decision at every step) of N clients on one HostPool with limit M, one client possibly '
           'cancelled at a symbolic step, one connection possibly closed while held: no sharing, |busy| <= M, no deadlock, nothing '
           'checked out and the lock free at quiescence'),
-    H('proxy_setup_failure', '_proxy_setup_failure', 'fail_at: int, use_ssl: bool, nclients: int', pre=['0 <= fail_at <= 3 and 1 <= nclients <= 3'],
-      timeout={'quick': 200, 'thorough': 400}, samples=[(3, False, 1), (0, False, 2), (1, True, 2)], need=['setup-failed', 'setup-ok'],
+    H('proxy_setup_failure', '_proxy_setup_failure', 'fail_at: int, use_ssl: bool, nclients: int', pre=['0 <= fail_at <= 4 and 1 <= nclients <= 3'],
+      timeout={'quick': 200, 'thorough': 400}, samples=[(3, False, 1), (0, False, 2), (1, True, 2), (4, False, 2)], need=['setup-failed', 'setup-ok'],
       funcs=['wpull/proxy/client.py:HTTPProxyConnectionPool.acquire_proxy', 'wpull/protocol/abstract/client.py:BaseSession._acquire_connection'],
       doc='1-3 sessions in turn through the real HTTPProxyConnectionPool (limit 1 per host) while setting up the proxy connection fails '
-          'at connect / CONNECT tunnel / TLS start: after each session nothing is checked out, the next session is not blocked, idle '
+          'at connect / CONNECT tunnel / TLS start, or stalls until the client is cancelled: after each session nothing is checked out, the next session is not blocked, idle '
           'bookkeeping is dropped'),
     H('schedules_host3', '_schedule_host_bounded',
       'p1: int, a1: int, p2: int, a2: int, nclients: int, maxc: int, cancel_client: int, cancel_step: int, close_client: int',
       pre={'quick': ['0 <= p1 <= 25 and 1 <= a1 <= 2 and p2 == 60 and a2 == 1 and nclients == 3 and 1 <= maxc <= 2',
-                     '-1 <= cancel_client <= 2 and 0 <= cancel_step <= 12 and close_client == -1'],
+                     '-1 <= cancel_client <= 2 and 0 <= cancel_step <= 12 and -1 <= close_client <= 0'],
            'thorough': ['0 <= p1 <= 40 and 1 <= a1 <= 2 and p1 < p2 <= 60 and 1 <= a2 <= 2 and nclients == 3 and 1 <= maxc <= 2',
                         '-1 <= cancel_client <= 2 and 0 <= cancel_step <= 15 and -1 <= close_client <= 2']},
       parts=[{'tag': 'm%d_c%d' % (m, c), 'fix': _fx(maxc=str(m), cancel_client=str(c), cancel_step='0' if c < 0 else None)} for m in (1, 2) for c in (-1, 0, 1, 2)],
